@@ -137,6 +137,7 @@ static void run_exec(std::ofstream &out, const Cfg &c, long gi) {
 				CanettiGennaroJareckiKrawczykRabinDSS dss(n, t, i, GP, GQ, GG, GH, fbits, sbits, false, false);
 				bool ret = dss.Generate(aiou, rbc, err, faulty);
 				o["ret"] = ret; o["qual"] = qual_j(dss.QUAL); o["x"] = mpz2l(dss.x_i); o["xp"] = mpz2l(dss.xprime_i); o["y"] = mpz2l(dss.y);
+				o["xq"] = qual_j(dss.dkg->x_rvss->QUAL);     // who was qualified in the sharing of x (before the extraction of y)
 				if (ret) {
 					sc.barrier(i, [&]() { Mpz tmp; size_t l = 0; rbc->Deliver(tmp, l, aiounicast::aio_scheduler_roundrobin, 0); });
 					Mpz m(msgval), rr, ss;
